@@ -1,7 +1,11 @@
 #!/bin/bash
-# runs every registered quick check on /repo and prints the summary lines (evidence is rewritten)
+# runs every registered check (default: quick tier) on /repo and prints the summary lines (evidence is rewritten)
+# usage: tools/run_all.sh [tier] [ids...]
 cd /verif
-for p in $(python3 -c "import json;print(' '.join(c['property_id'] for c in json.load(open('MANIFEST.json'))['checks']))"); do
-  ./check $p --tier ${1:-quick} > /tmp/runall_$p.log 2>&1; rc=$?
+TIER=${1:-quick}; shift
+IDS="$@"
+[ -z "$IDS" ] && IDS=$(python3 -c "import json;print(' '.join(c['property_id'] for c in json.load(open('MANIFEST.json'))['checks']))")
+for p in $IDS; do
+  timeout ${RUNALL_TIMEOUT:-5400} ./check $p --tier $TIER > /tmp/runall_$p.log 2>&1; rc=$?
   echo "$p rc=$rc $(grep -E '^\[C' /tmp/runall_$p.log | tail -1 | cut -c1-170) $(grep -c VIOLATION /tmp/runall_$p.log) violation-lines"
 done
